@@ -86,6 +86,32 @@ pub fn indent_regexp(regexp: String, is_start_anchor_disabled: bool, is_output_c
     crate::regexp::verif_forward::indent_regexp(regexp, &config)
 }
 
+/// Runs `GraphemeCluster::from(s)` and `convert_repetitions` with the given thresholds and returns the resulting
+/// graphemes in pre-order as (nesting depth, units, min, max).
+pub fn cluster_repetitions(
+    s: &str,
+    minimum_repetitions: u32,
+    minimum_substring_length: u32,
+) -> Vec<(usize, Vec<String>, u32, u32)> {
+    fn walk(g: &Grapheme, depth: usize, out: &mut Vec<(usize, Vec<String>, u32, u32)>) {
+        out.push((depth, g.chars.clone(), g.minimum(), g.maximum()));
+        for r in g.repetitions.iter() {
+            walk(r, depth + 1, out);
+        }
+    }
+    let mut config = RegExpConfig::new();
+    config.is_repetition_converted = true;
+    config.minimum_repetitions = minimum_repetitions;
+    config.minimum_substring_length = minimum_substring_length;
+    let mut cluster = GraphemeCluster::from(s, &config);
+    cluster.convert_repetitions();
+    let mut out = vec![];
+    for g in cluster.graphemes().iter() {
+        walk(g, 0, &mut out);
+    }
+    out
+}
+
 /// The units `GraphemeCluster::from` splits `s` into.
 pub fn split_graphemes(s: &str) -> Vec<String> {
     let config = RegExpConfig::new();
